@@ -331,9 +331,7 @@ def re_sub(pat, repl, s):
             if callable(repl):
                 out.extend(chars_of(repl(m)))
             else:
-                if '\\' in repl:
-                    raise Unsupported('group references in a re.sub template')
-                out.extend(chars_of(repl))
+                out.extend(expand_template(repl, m))
             if m.b == p:
                 last_empty_at = p
                 if p < n:
@@ -347,6 +345,32 @@ def re_sub(pat, repl, s):
             out.append(s.c[p])
         p += 1
     return mks(out)
+
+
+_TPL = re.compile(r'\\(\d)|\\g<(\d+)>|\\(.)|([^\\]+)', re.S)
+_TPL_ESC = {'n': '\n', 't': '\t', 'r': '\r', '\\': '\\'}
+
+
+def expand_template(repl, m):
+    out = []
+    pos = 0
+    for t in _TPL.finditer(repl):
+        if t.start() != pos:
+            raise Unsupported('re.sub template %r' % repl)
+        pos = t.end()
+        if t.group(1) or t.group(2):
+            g = m.group(int(t.group(1) or t.group(2)))
+            if g is not None:
+                out.extend(chars_of(g))
+        elif t.group(3) is not None:
+            if t.group(3) not in _TPL_ESC:
+                raise Unsupported('re.sub template escape %r' % t.group(3))
+            out.extend(chars_of(_TPL_ESC[t.group(3)]))
+        else:
+            out.extend(chars_of(t.group(4)))
+    if pos != len(repl):
+        raise Unsupported('re.sub template %r' % repl)
+    return out
 
 
 def re_split(pat, s):
@@ -501,7 +525,7 @@ def sx_in(a, b):
         p = to_plain(a)
         if p is not None:
             return p in b
-        for k in b:
+        for k in list(b):
             if isinstance(k, (str, SymStr)) and bool(a == k):
                 return True
         return False
